@@ -1,6 +1,7 @@
 import Mouette.Model.Proto
 import Mouette.Model.BoxHist
 import Mouette.Model.Prim
+import Mouette.Model.Turns
 /-
 Protocol front-end for C12.
 
@@ -8,7 +9,7 @@ Protocol front-end for C12.
       ops: `mk i j | inf d | cube d c | ofp <n> i… pad | inter a b | union a b | doint a b | padf b x | padv b i |
             contains b i | project b i | dist b i (l1|linf|l2) | empty b | center b | span b | get b | nrm i`
       reply, per op: `<result> ; <indices of caller arrays whose content differs from the start> ; <geterr code>`
-  `prim <name> args…`                             one closed-form primitive, exact
+  `prim <name> args…`                             one closed-form primitive, exact (`pangleT`, `adiffT`, `rootsT` take angles in TURNS)
 -/
 namespace Mouette.DriveC12
 open Mouette.Proto Mouette.AABB Mouette.BoxHist Mouette.Prim
@@ -102,6 +103,12 @@ def prim : P String := do
       let a ← v3; let b ← v3; let n ← v3
       let r := signedAngle a b n
       pure s!"S {r.1} {fmtRat r.2.1} {fmtRat r.2.2}"
+  | "cotan" => do let a ← v3; let b ← v3; let c ← v3; let r := cotanPair a b c; pure s!"K {fmtRat r.1} {fmtRat r.2}"
+  | "pangleT" => do let t ← rat; pure s!"T {fmtRat (Mouette.Turns.principalTurn t)}"
+  | "adiffT" => do let a ← rat; let b ← rat; pure s!"T {fmtRat (Mouette.Turns.angleDiffTurn a b)}"
+  | "rootsT" => do
+      let t ← rat; let n ← nat
+      pure s!"R {fmtRats (Mouette.Turns.rootTurns (Mouette.Turns.principalTurn t) n)}"
   | _ => failure
 
 def handle (ts : List String) : Option String :=
